@@ -112,6 +112,14 @@ pub enum Act {
         trader: String,
         amt: u128,
     },
+    /// vAMM administration by `by`: ownership transfer and/or a new insurance-fund address in the vAMM's config
+    /// ("@ifund" stands for the engine's insurance fund contract)
+    VammAdmin {
+        by: String,
+        v: usize,
+        owner: Option<String>,
+        ifund: Option<String>,
+    },
     /// an engine message given as JSON text (entry points outside the harness's alphabets, see synth.rs)
     RawExec {
         by: String,
@@ -229,6 +237,7 @@ impl Act {
             | Act::DepRaw { by, .. }
             | Act::RawOp { by, .. }
             | Act::RawExec { by, .. }
+            | Act::VammAdmin { by, .. }
             | Act::EngConfig { by, .. }
             | Act::VammConfig { by, .. }
             | Act::VammCaps { by, .. } => Some(by),
@@ -275,6 +284,7 @@ impl Act {
             Act::DepRaw { .. } => "deposit_raw",
             Act::RawOp { .. } => "raw_op",
             Act::RawExec { .. } => "raw_exec",
+            Act::VammAdmin { .. } => "vamm_admin",
             Act::Funded { .. } => unreachable!(),
             Act::EngConfig { .. } => "engine_config",
             Act::VammConfig { .. } => "vamm_config",
@@ -636,6 +646,39 @@ pub fn apply_fault(w: &mut World, a: &Act, fail_at: Option<u32>) -> Outcome {
                 _ => (EngineExec::PayFunding { vamm: vamm.clone() }, 0),
             };
             w.exec_full(by, &eng, &msg, if native { funds } else { 0 }, fail_at)
+        }
+        Act::VammAdmin { by, v, owner, ifund } => {
+            let va = vamm_addr(w, *v);
+            let fund = w.ifund.to_string();
+            let res = |x: &String| if x == "@ifund" { fund.clone() } else { x.clone() };
+            let by = res(by);
+            let mut last = env_ok();
+            if let Some(f) = ifund {
+                last = w.exec_full(
+                    &by,
+                    &va,
+                    &VammExec::UpdateConfig {
+                        base_asset_holding_cap: None,
+                        open_interest_notional_cap: None,
+                        toll_ratio: None,
+                        spread_ratio: None,
+                        fluctuation_limit_ratio: None,
+                        margin_engine: None,
+                        insurance_fund: Some(res(f)),
+                        pricefeed: None,
+                        spot_price_twap_interval: None,
+                    },
+                    0,
+                    fail_at,
+                );
+                if !last.ok {
+                    return last;
+                }
+            }
+            if let Some(o) = owner {
+                last = w.exec_full(&by, &va, &VammExec::UpdateOwner { owner: res(o) }, 0, fail_at);
+            }
+            last
         }
         Act::RawExec { by, json } => {
             let v: serde_json::Value = serde_json::from_str(json).expect("raw exec json");
